@@ -285,6 +285,31 @@ pub fn run(ctx: &Ctx) -> Outcome {
     if let Some(e) = &r.machinery { o.machinery_error = Some(e.clone()); }
     if r.note.is_none() && r.runs == 0 { o.machinery_error = Some("real-descriptor tier ran no scenario".into()); }
   }
+  // C11 below the Driver seam: an interrupted wait while a repeat is pending (Engine R, real clock, one-sided bound)
+  if id == "C11" {
+    use crate::engine_r::{interrupt_probe, InterruptObs, HOOK_BUILT};
+    let mut notes: Vec<Value> = vec![];
+    if !HOOK_BUILT { notes.push(json!("unavailable: the hook run_real_driver_on_fds did not compile on this tree")); }
+    else {
+      let params: Vec<(i32, u64, usize)> = if ctx.tier == Tier::Quick { vec![(1500, 400, 1), (1200, 250, 2)] } else { vec![(1500, 400, 1), (1200, 250, 2), (3000, 700, 3), (800, 300, 1)] };
+      let obs: Vec<InterruptObs> = par_map(params.len(), params.len(), |i| interrupt_probe(params[i].0, params[i].1, params[i].2));
+      for (pr, ob) in params.iter().zip(obs.into_iter()) {
+        match ob {
+          InterruptObs::Unavailable(m) => notes.push(json!({"delay_ms": pr.0, "unavailable": m})),
+          InterruptObs::Machinery(m) => { o.machinery_error = Some(format!("interrupt probe: {}", m)); }
+          InterruptObs::Rearmed { first_ms, after_ms, pause_ms } => {
+            notes.push(json!({"delay_ms": pr.0, "first_timeout_ms": first_ms, "paused_ms": pause_ms, "timeout_after_signals_ms": after_ms}));
+            if after_ms > first_ms - pause_ms as i64 + 2 {
+              o.violations.push(Violation { property: "C11".into(), clause: "real-driver-waits-too-long-after-an-interrupted-wait".into(), signature: None,
+                description: format!("Special repeat with delay {} ms under the real driver: the wait was armed with {} ms; {} ms later a signal interrupted it (EINTR) and the loop went back to waiting with {} ms - beyond the chord's due time (at most {} ms are left)", pr.0, first_ms, pause_ms, after_ms, first_ms - pause_ms as i64),
+                artefact: json!({"engine": "R", "probe": "interrupt", "delay_ms": pr.0, "pause_ms": pr.1, "signals": pr.2}), count: 1 });
+            }
+          }
+        }
+      }
+    }
+    o.cov("real_descriptor_tier", json!({"what": "the unmodified RealDriver + loop on the machine's clock; a Special repeat fires, the armed epoll_wait time-out is read from /proc/<tid>/syscall, the feeder sleeps and interrupts the wait with a signal, the re-armed time-out must be at most the first one minus the pause (one-sided: load only makes it smaller)", "probes": notes}));
+  }
   if o.machinery_error.is_none() && o.violations.is_empty() {
     let need: Vec<&str> = match id {
       "C10" => vec!["step_outputs_written", "wakeups_with_several_events", "executions_ending_with_device_gone"],
